@@ -12,7 +12,9 @@ Names == {<<"ping">>, <<"x">>, <<"v2">>, <<"get", "info">>, <<"get", "2fa">>, <<
 Renames == {"", "Renamed", "lowerCase", "With2FA"}
 Kinds == {"plain", "more", "oneway"}
 Classes == {"scalar", "str", "string", "slice", "strslice", "struct", "generic"}
-PC == [cls : Classes, ren : BOOLEAN, none : {FALSE}] \cup [cls : OptClasses, ren : BOOLEAN, none : BOOLEAN]
+\* sp: how the declaration spells `Option' (the macro has to recognise the type whatever path names it)
+OptSpellings == {"", "std::option::", "core::option::", "::std::option::", "::core::option::"}
+PC == [cls : Classes, ren : BOOLEAN, none : {FALSE}, sp : {""}] \cup [cls : OptClasses, ren : BOOLEAN, none : BOOLEAN, sp : OptSpellings]
 PNames == <<"a", "name", "type_", "x2">>
 PRen == <<"wireName", "type", "kebab-name", "X">>
 \* Rust parameter names: ordinary ones, and every value identifier the generated body itself uses or could use
@@ -22,7 +24,7 @@ PNamePool == {"a", "name", "type_", "x2", "id", "method", "parameters", "params"
 MkN(choices, names) ==
     [i \in 1..Len(choices) |->
        [name |-> names[i], rename |-> IF choices[i].ren THEN PRen[i] ELSE "", cls |-> choices[i].cls,
-        none |-> choices[i].none]]
+        none |-> choices[i].none, sp |-> choices[i].sp]]
 Mk(choices) == MkN(choices, PNames)
 HasRef(ps) == \E i \in 1..Len(ps) : ps[i].cls \in {"str", "opt", "slice", "strslice", "struct"}
 \* one declaration drawn at random from the space (TLC's -seed decides): every component is drawn
@@ -45,7 +47,7 @@ Singles == {[iface |-> "org.example.px", words |-> <<"get", "info">>, rename |->
              params |-> Mk(<<c>>), out |-> "struct"] : c \in PC}
 \* every name of the pool once as a &str and once as a scalar parameter of each kind of method
 Named == {[iface |-> "org.example.px", words |-> <<"do", "it">>, rename |-> "", kind |-> k, lt |-> "elided",
-           params |-> MkN(<<[cls |-> c, ren |-> FALSE, none |-> FALSE]>>, <<n>>), out |-> "unit"]
+           params |-> MkN(<<[cls |-> c, ren |-> FALSE, none |-> FALSE, sp |-> ""]>>, <<n>>), out |-> "unit"]
           : n \in PNamePool, k \in Kinds, c \in {"str", "scalar"}}
 Picked == Singles \cup Named \cup {RandomDecl(i) : i \in 1..NDecl}
 
